@@ -153,7 +153,11 @@ Record strops := {
   s_add : carrier -> carrier -> carrier;       (* a + b *)
   s_rpartition : carrier -> carrier -> outcome (carrier * carrier * carrier);   (* a.rpartition(sep) *)
   s_lit : list Z -> carrier;                   (* a literal, by code points *)
-  s_lower : carrier -> carrier                 (* a.lower(), on the ASCII letters (what a language tag is made of) *)
+  s_lower : carrier -> carrier;                (* a.lower(), on the ASCII letters (what a language tag is made of) *)
+  (* two functions of strings that the SPECIFICATION of rdflib's Literal constructor uses (translate/dyn.py, rdflib_Literal):
+     rdflib's _is_valid_langtag, and the lexical form a Literal of a given datatype holds (whiteSpace facet of xsd:token / xsd:normalizedString) *)
+  s_langtag_ok : carrier -> bool;
+  s_rdflib_lex : option carrier -> carrier -> carrier
 }.
 
 (* ---- str as a list of code points: the concrete operations *)
